@@ -678,7 +678,7 @@ def run(repo, rep):
         {'function': fi.key, 'construct': model.norm(n)[:80],
          'failure': list(cl), 'guard': how}
         for fi, n, cl, how in an.partial_sites][:40]
-    rep.floor('partial-operation sites catalogued', nparts, 3)
+    rep.floor('partial-operation sites catalogued', nparts, 2)
     rep.floor('entry points (token/grammar/engine)', len(entries), 26)
     check_hooks(repo, rep, an)
     check_positions(repo, rep, an)
